@@ -39,7 +39,7 @@ var c18Vals = [][]byte{[]byte(""), []byte("a"), []byte("abcdef"), bytes.Repeat([
 
 func c18ValLabel(i int) string { return []string{"empty", "len1", "len6", "len4096", "len3"}[i] }
 
-var c18Names = []string{"a", "", "ü", "with/slash", "a:b", string(pat(100, 200))}
+var c18Names = []string{"a", "", "ü", "with/slash", "a:b", string(pat(100, 200)), "\xff\xfe", "ab\xee", "name.entity"}
 
 func c18NameLabel(n string) string {
 	switch {
@@ -47,6 +47,10 @@ func c18NameLabel(n string) string {
 		return "empty-name"
 	case len(n) == 100:
 		return "100-arbitrary-bytes"
+	case n == "\xff\xfe":
+		return "bytes-ff-fe"
+	case n == "ab\xee":
+		return "bytes-ab-ee"
 	}
 	return n
 }
@@ -317,7 +321,7 @@ func init() {
 	fw.Register(&fw.Check{
 		ID:     "C18",
 		Level:  "model_checking",
-		Rule:   "explicit-state breadth-first search over the real file storage and pairing database: alphabet Set(k,v) for 3 keys × 5 values (lengths 0,1,3,6,4096), Get, Delete, KeysWithSuffix × 3 suffixes, reopen; SaveEntity (3 key lengths) / EntityWithName / DeleteEntity / Entities / reopen for 6 entity names (ASCII, empty, non-ASCII, with slash, with colon, 100 arbitrary bytes). State = exact directory content (file names and bytes); every operation is executed in every discovered state by replaying the state's shortest history on a fresh directory; after every step all keys, listings and entities are compared with a Go map. distinct_nontrivial = distinct (layer, operation) classes executed",
+		Rule:   "explicit-state breadth-first search over the real file storage and pairing database: alphabet Set(k,v) for 3 keys × 5 values (lengths 0,1,3,6,4096), Get, Delete, KeysWithSuffix × 3 suffixes, reopen; SaveEntity (3 key lengths) / EntityWithName / DeleteEntity / Entities / reopen for 9 entity names (ASCII, empty, non-ASCII, with slash, with colon, 100 arbitrary bytes, invalid UTF-8 ending in 0xfe and in 0xee, a name ending in '.entity'). State = exact directory content (file names and bytes); every operation is executed in every discovered state by replaying the state's shortest history on a fresh directory; after every step all keys, listings and entities are compared with a Go map. distinct_nontrivial = distinct (layer, operation) classes executed",
 		Shards: func(string) int { return 2 },
 		Run:    c18Run,
 		Replay: func(c *fw.Ctx, raw json.RawMessage) {
